@@ -44,10 +44,14 @@ LEVEL_TEXT = ("Proof: the CSEP-ASCII writer followed by the reader returns every
               "catalogs, all three formats, plus a direct field-by-field bitwise oracle on the real round trips.")
 LEVEL_NOTE = ("Since round 5 csv quoting and the float text of the ASCII format are MODELLED and proved (Model/PersistText, "
               "Model/FloatText; compared with the bytes of every written file: c14_text_load on all, c14_text_write on a "
-              "sample of ~20 000 float cells per quick run). Still abstract / trusted: JSON text, pandas column storage; "
-              "subnormal doubles, negative zero, NaN/inf are outside the float-text theorem (direct oracle only); that "
-              "numpy's Dragon4 'unique' digits equal the shortest-repr search of the model is validated by correspondence, "
-              "not proved. strptime is modelled for the canonical field widths that write_ascii produces. "
+              "sample of ~20 000 float cells per quick run). Round 6: the float text theorem covers EVERY finite double "
+              "(subnormals; on bit patterns also negative zero: float_bits_roundtrip), the digit search is proved to return "
+              "THE shortest round-tripping decimal and the nearest among the shortest (digits_are_shortest / _nearest), so "
+              "only 'numpy and CPython print the shortest repr' stays validated by correspondence; the whole JSON document "
+              "(brackets, commas, indent, sort_keys, escapes, numbers) is proved to load back (json_document_roundtrip, on "
+              "the C18 owner's Model/JsonText with the float instance proved here for all finite doubles); from_dataframe "
+              "is modelled as selection BY COLUMN NAME (Model/FrameColumns). Still trusted: pandas' storage of the cells, "
+              "NaN / inf (words NaN / Infinity in JSON; direct oracle). strptime is modelled for the canonical field widths that write_ascii produces. "
               "A None catalog id is outside the property (the ASCII loader turns it into -1): correspondence only.")
 DESIGN_REF = "DESIGN.md §4 C14"
 TECHNIQUE = "Lean 4 proof (list induction over the record model + Time codec lemmas) with differential correspondence"
@@ -71,7 +75,13 @@ THEOREMS = ["Persist.time_string_roundtrip", "Persist.time_string_fraction_iff",
             "PersistText.textCodec_headerSafe", "PersistText.ascii_file_roundtrip", "PersistText.ascii_file_append",
             # JSON tokens (Properties/C14_Json.lean)
             "CatalogJson.json_string_roundtrip", "CatalogJson.json_string_printable", "CatalogJson.json_event_roundtrip",
-            "CatalogJson.json_catalog_id_roundtrip"]
+            "CatalogJson.json_catalog_id_roundtrip",
+            # round 6: all finite doubles, THE shortest digits, bit patterns, the whole JSON document, named frame columns
+            "CatalogDoc.float_text_roundtrip_all", "CatalogDoc.digits_are_shortest", "CatalogDoc.digits_at_level",
+            "CatalogDoc.digits_are_nearest", "CatalogDoc.float_bits_roundtrip", "CatalogDoc.json_parse_render_all",
+            "CatalogDoc.json_document_roundtrip", "FrameColumns.frame_columns_roundtrip",
+            "FrameColumns.frame_column_order_irrelevant", "FrameColumns.frame_extra_column_irrelevant",
+            "FrameColumns.frame_without_catalog_id"]
 TRUSTED = ["Lean 4.33 kernel", "axioms: propext, Classical.choice, Quot.sound at most",
            "Model/FloatText.floatStr is what str(numpy.float64(x)) writes and DecimalText.pyFloat is what float(text) "
            "returns (hand transcriptions; the round trip between them is PROVED; tied to the code by comparing the bytes "
@@ -181,10 +191,21 @@ def bits(x):
     return struct.pack("<d", float(x))
 
 
+_RAT_CACHE = {}
+
+
 def rat(x):
-    """exact n/d of a double; a non-finite value (never generated, never expected) gives a token no model output equals"""
+    """exact n/d of a double; a non-finite value (never generated, never expected) gives a token no model output equals.
+    Memoised: the same events are written into several driver requests."""
     x = float(x)
-    return frac(x) if math.isfinite(x) else "nonfinite"
+    if not math.isfinite(x):
+        return "nonfinite"
+    r = _RAT_CACHE.get(x)
+    if r is None:
+        if len(_RAT_CACHE) > 500000:
+            _RAT_CACHE.clear()
+        r = _RAT_CACHE[x] = frac(x)
+    return r
 
 
 def is_int(x):
@@ -335,8 +356,15 @@ def build(spec, with_region=True):
         import numpy
         data = [(e[0].encode("ascii"), numpy.int64(e[1]), numpy.float64(e[2]), numpy.float64(e[3]), numpy.float64(e[4]),
                  numpy.float64(e[5])) for e in data]
-    return CSEPCatalog(data=data, catalog_id=build_catid(spec),
-                       name=spec["name"], region=build_region(spec["region"]) if with_region else None)
+    region = build_region(spec["region"]) if with_region else None
+    if kind == "all-keywords":       # round 6: every constructor keyword spelled out (CSEPCatalog takes keywords only)
+        return CSEPCatalog(filename=None, data=data, catalog_id=build_catid(spec), format=None, name=spec["name"],
+                           region=region, compute_stats=True, filters=None, metadata=None, date_accessed=None)
+    if kind == "subclass":           # a user's catalog class that inherits everything
+        class SubCatalog(CSEPCatalog):
+            pass
+        return SubCatalog(data=data, catalog_id=build_catid(spec), name=spec["name"], region=region)
+    return CSEPCatalog(data=data, catalog_id=build_catid(spec), name=spec["name"], region=region)
 
 
 def check_construction(ctx, case):
@@ -520,7 +548,7 @@ class Ctx:
                 op = self.drv.lines[i].split(" ", 1)[0]
                 below = ((canon is not None and canon(out[i]) == canon(expected))
                          or op in ("c14_write", "c14_writeg", "c14_timestr", "c14_region_dict", "c14_region_load",
-                                   "c14_text_write", "c14_json_str", "c14_json_unstr", "c14_floatstr")
+                                   "c14_text_write", "c14_json_str", "c14_json_unstr", "c14_floatstr", "c14_reprbits")
                          or case.get("kind") == "malformed"
                          or (case.get("fmt") == "append" and case.get("opts", {}).get("header2")))
                 if below:
@@ -679,7 +707,18 @@ def written_file(ctx, path, ref, old_rows, fails):
     return rows, rows_tok(rows)
 
 
-ASCII_VIAS = ["default", "type", "format-csep", "loader", "class", "pathlib"]
+ASCII_VIAS = ["default", "type", "format-csep", "loader", "class", "pathlib", "positional", "subclass"]
+
+
+@contextlib.contextmanager
+def strict_warnings():
+    """warnings as errors, except deprecation notices (pyCSEP itself calls the deprecated datetime.utcnow())"""
+    import warnings
+    with warnings.catch_warnings():
+        warnings.simplefilter("error")
+        for c in (DeprecationWarning, PendingDeprecationWarning, FutureWarning):
+            warnings.simplefilter("ignore", c)
+        yield
 
 
 def load_ascii(path, via="default"):
@@ -700,6 +739,17 @@ def load_ascii(path, via="default"):
         elif via == "pathlib":
             import pathlib
             cat = csep.load_catalog(pathlib.Path(path))
+        elif via == "positional":          # round 6: csep.load_catalog(filename, type, format, loader, apply_filters) by position
+            try:
+                with strict_warnings():
+                    cat = csep.load_catalog(path, "csep-csv", "native", None, False)
+            except Warning:
+                cat = csep.load_catalog(path, "csep-csv", "native", None, False)
+        elif via == "subclass":            # a user's subclass of CSEPCatalog is the one that loads
+            from csep.core.catalogs import CSEPCatalog
+            class SubCatalog(CSEPCatalog):
+                pass
+            cat = SubCatalog.load_catalog(filename=path)
         else:
             cat = csep.load_catalog(path)
         resp = f"ok {catid_tok(cat.catalog_id)} {events_tok(events_of(cat))}"
@@ -723,6 +773,15 @@ def check_ascii(ctx, case):
         elif o.get("via") == "pathlib":
             import pathlib
             cat.write_ascii(pathlib.Path(path), hdr, emp)          # positional options, a Path for the file name
+        elif ctx.nfile % 7 == 0:
+            # round 6: every option by position, and warnings (other than deprecation notices) turned into exceptions
+            try:
+                with strict_warnings():
+                    cat.write_ascii(path, hdr, emp, False, "id")
+            except Warning as w:       # an observation about the environment; the round trip is judged on the ordinary call
+                ctx.run.count("observed: write_ascii raises only under warnings-as-errors: " + type(w).__name__)
+                cat.write_ascii(path, hdr, emp, False, "id")
+            branches.append("ascii:all options positional, warnings as errors")
         else:
             cat.write_ascii(path, write_header=hdr, write_empty=emp)
     except Exception as e:
@@ -753,7 +812,7 @@ def check_ascii(ctx, case):
         # what csep.load_catalog makes of these bytes = what the text model makes of them (property level)
         ctx.ask(f"c14_text_load x{raw.hex()}", resp, case, canon_load(demand_id, mask_ids=noid))
         ctx.run.count("ascii:file bytes through the text model (c14_text_load)")
-        if text_model_ok(ref) and (len(ref) <= 6 or ctx.nfile % 4 == 0):
+        if text_model_ok(ref) and (len(ref) <= 6 or ctx.nfile % 5 == 0):
             # the bytes themselves (file layout: below the property level, recorded as divergence only)
             ctx.ask(f"c14_text_write {int(hdr)} {int(emp)} {catid_tok(spec['catalog_id'])} {events_tok(ref)} {int(not noid)}",
                     "x" + raw.hex(), case)
@@ -1024,16 +1083,20 @@ def check_dict(ctx, case):
     fails = []
     branches = [f"{fmt}:region={'yes' if spec['region'] else 'no'}", f"{fmt}:name={'None' if spec['name'] is None else 'str'}"]
     loads = []          # (label, loaded catalog)
+    alias_dict = None
     try:
         if fmt == "dict":
             d = cat.to_dict()
             before = dict_fingerprint(d)
-            loads.append((what, CSEPCatalog.from_dict(d)))
+            loads.append((what, type(cat).from_dict(adict=d) if ctx.nfile % 2 else type(cat).from_dict(d)))
             if dict_fingerprint(d) != before:
                 # what matters is that the stored form can be loaded again (next line); that from_dict touched the
                 # caller's dict at all is not the property's business (counted)
                 ctx.run.count("dict:from_dict changed the dict it was given (second load compared; below the property level)")
             loads.append((f"{what} (second load of the same dict)", CSEPCatalog.from_dict(d)))
+            if type(loads[0][1]) is not type(cat):
+                ctx.run.count("dict:from_dict called on a subclass returned " + type(loads[0][1]).__name__)
+            alias_dict = d
             if len(ref) <= 200:
                 # the dict is the serialised form: it can be written as JSON by the caller and loaded from there
                 path = ctx.path("json")
@@ -1044,10 +1107,17 @@ def check_dict(ctx, case):
         else:
             path = ctx.path("json")
             cat.write_json(path)
-            loads.append((what, CSEPCatalog.load_json(path) if via == "load_json" else csep.load_catalog(path)))
+            loads.append((what, (CSEPCatalog.load_json(filename=path) if ctx.nfile % 2 else CSEPCatalog.load_json(path))
+                          if via == "load_json" else csep.load_catalog(path)))
             loads.append((f"{what} (second load of the same file)",
                           csep.load_catalog(path, format="csep") if via == "load_json" else CSEPCatalog.load_json(path)))
+            doc_bytes = None
+            if len(ref) <= 40:
+                with open(path, "rb") as f:
+                    doc_bytes = f.read()
             os.unlink(path)
+            if doc_bytes is not None and len(doc_bytes) <= 120000 and (len(ref) <= 6 or ctx.nfile % 4 == 0):
+                doc_correspondence(ctx, case, doc_bytes, loads[0][1])
             if len(ref) <= 200:
                 # round 5: the repository layer, the package's second public JSON entry point
                 # (csep.write_json(obj, fname) = FileSystem(url).save(obj.to_dict()); csep.load_json(obj, fname))
@@ -1081,6 +1151,17 @@ def check_dict(ctx, case):
     if not same_events(events_of(cat), ref):
         fails.append((f"{what}: serialising changed the original catalog object", None))
     loaded = loads[0][1]
+    if alias_dict is not None and ref and not fails:
+        # round 6 (aliasing): the caller goes on using its dict; the catalog that was loaded from it must not change
+        try:
+            for row in alias_dict.get("catalog") or []:
+                if isinstance(row, list) and len(row) > 5:
+                    row[1], row[5] = 0, -77.0
+            alias_dict["name"] = "edited by the caller"
+            if not same_events(events_of(loaded), ref) or loaded.name != spec["name"]:
+                fails.append((f"{what}: editing the dict AFTER from_dict changed the loaded catalog (it aliases the caller's data)", None))
+        except Exception as e:
+            fails.append((f"{what}: the loaded catalog cannot be inspected: {type(e).__name__}: {e}", None))
     if not fails and (not ref or ctx.nfile % 3 == 0) and len(ref) <= 200:
         second_generation(what, loaded, ref, fails, "frame" if ctx.nfile % 2 else "dict")
         branches.append("second generation (loaded catalog persisted again)")
@@ -1095,11 +1176,12 @@ def check_dict(ctx, case):
             ctx.ask("c14_json_unstr " + ";".join(hx(t) for t in toks), ";".join(hx(json.loads(t)) for t in toks),
                     case)
             ctx.run.count("json:id tokens against Model/CatalogJson", len(ids))
-        if text_model_ok(ref) and (len(ref) <= 6 or ctx.nfile % 4 == 0):
-            xs = [x for e in ref for x in e[2:6]]
-            ctx.ask("c14_floatstr " + ";".join(rat(x) for x in xs), ";".join(hx(json.dumps(x)) for x in xs),
-                    case)
-            ctx.run.count("json:float tokens against Model/FloatText", len(xs))
+        if (len(ref) <= 6 or ctx.nfile % 4 == 0):
+            xs = [x for e in ref for x in e[2:6] if math.isfinite(x)]
+            if xs:     # by bit pattern: negative zero and subnormals are ordinary values of Model/CatalogDoc.reprBits
+                ctx.ask("c14_reprbits " + ";".join(str(f64bits(x)) for x in xs), ";".join(hx(json.dumps(x)) for x in xs),
+                        case)
+                ctx.run.count("json:float tokens against Model/CatalogDoc.reprBits (bit patterns)", len(xs))
     try:
         check_region_forms(ctx, case, cat, loaded, ref, fails)
         ctx.ask(f"c14_dict_rt {catid_tok(cid)} {events_tok(ref)}",
@@ -1108,6 +1190,50 @@ def check_dict(ctx, case):
         fails.append((f"{what}: the loaded catalog cannot be inspected: {type(e).__name__}: {e}", None))
     report(ctx, case, fails)
     ctx.account(case, *branches)
+
+
+def f64bits(x):
+    return struct.unpack("<Q", struct.pack("<d", float(x)))[0]
+
+
+def canon_doc(resp):
+    """`ok <catalog id> <name> <events> <region>`: the events are the property-level part of the document comparison (they
+    are taken from the catalog load_json returned); id / name / region are compared with json.load's view of the file,
+    which ties the model's JSON parser to Python's (layout level)"""
+    parts = resp.split(" ")
+    return parts[3] if len(parts) == 5 and parts[0] == "ok" else resp
+
+
+def doc_correspondence(ctx, case, doc_bytes, loaded):
+    """round 6: the CHARACTERS of the JSON file through Model/JsonText.parse (the C18 owner's transcription of json.load)
+    with the float reader / writer of Model/CatalogDoc, then `fromTree` (the four members from_dict cares about): must give
+    the events load_json gave — doubles compared as 64-bit patterns, so negative zero and subnormals count"""
+    try:
+        d = json.loads(doc_bytes.decode("utf-8"))
+        evs = events_of(loaded)
+    except Exception:
+        ctx.run.count("json:document not comparable (load failed; the oracle reports it)")
+        return
+    if any(not math.isfinite(x) for e in evs for x in e[2:6]) or not doc_bytes.isascii():
+        ctx.run.count("json:document with NaN / inf (words NaN / Infinity; model of the document skipped)")
+        return
+    ev_tok = ";".join(f"{hx(e[0])},{e[1]},{f64bits(e[2])},{f64bits(e[3])},{f64bits(e[4])},{f64bits(e[5])}" for e in evs) or "-"
+    cid = d.get("catalog_id")
+    name = d.get("name")
+    r = d.get("region")
+    try:
+        reg = "none" if r is None else (f"{hx(r['name'])}:{f64bits(r['dh'])}:"
+                                        + ",".join(f"{f64bits(q['lat'])}/{f64bits(q['lon'])}" for q in r["polygons"]))
+        expected = (f"ok {catid_tok(cid) if (cid is None or is_int(cid)) else 'other'} "
+                    f"{'none' if name is None else hx(name)} {ev_tok} {reg}")
+    except Exception:
+        ctx.run.count("json:document with a region form the document model does not describe (quadtree …)")
+        return
+    if isinstance(r, dict) and ("dh" not in r or "class_id" not in r or not isinstance(r.get("dh"), float)):
+        ctx.run.count("json:document with a region form the document model does not describe (quadtree …)")
+        return
+    ctx.ask(f"c14_doc_load x{doc_bytes.hex()}", expected, case, canon_doc)
+    ctx.run.count("json:document characters through the document model (c14_doc_load)")
 
 
 # ------------------------------------------------------------------------------------------------ DataFrame
@@ -1138,7 +1264,7 @@ def check_frame(ctx, case):
     first = None
     for label, kw in (("frame round trip", {}), ("frame round trip (with_datetime=True)", dict(with_datetime=True))):
         try:
-            df = cat.to_dataframe(**kw)
+            df = cat.to_dataframe(True) if (kw and ctx.nfile % 2) else cat.to_dataframe(**kw)     # positional / keyword
             before = frame_fingerprint(df)
             for nth in ("", ", second load of the same frame"):
                 loaded = CSEPCatalog.from_dataframe(df)
@@ -1156,6 +1282,32 @@ def check_frame(ctx, case):
             if not fails and not kw and (not ref or ctx.nfile % 3 == 0) and len(ref) <= 200:
                 second_generation(label, loaded, ref, fails, "dict")
                 branches.append("second generation (loaded catalog persisted again)")
+            if not kw and ref and not fails:
+                # round 6 (aliasing): the caller goes on editing its frame; the loaded catalog must not change with it
+                try:
+                    df.loc[:, "magnitude"] = -77.0
+                    df.loc[:, "origin_time"] = 1
+                    if not same_events(events_of(loaded), ref):
+                        fails.append((f"{label}: editing the frame AFTER from_dataframe changed the loaded catalog (it aliases "
+                                      f"the caller's data)", None))
+                    df = cat.to_dataframe()
+                except Exception as e:
+                    ctx.run.count("frame:in-place edit of the caller's frame raised " + type(e).__name__)
+            if not kw and ctx.nfile % 5 == 0 and not fails:
+                # round 6 (Model/FrameColumns: from_dataframe SELECTS BY NAME): the caller re-orders the columns, adds one,
+                # drops catalog_id — observed and counted (a frame edited by the user is beyond "to a DataFrame and back")
+                try:
+                    cols = list(df.columns)
+                    df2 = df[cols[::-1]].copy()
+                    df2.insert(2, "note", "x")
+                    same = same_events(events_of(CSEPCatalog.from_dataframe(df2)), ref)
+                    df3 = df.drop(columns=["catalog_id"])
+                    c3 = CSEPCatalog.from_dataframe(df3)
+                    same3 = same_events(events_of(c3), ref) and c3.catalog_id is None
+                    ctx.run.count("frame:columns reversed + one inserted: " + ("same events" if same else "DIFFERENT events"))
+                    ctx.run.count("frame:catalog_id column dropped: " + ("same events, id None" if same3 else "other outcome"))
+                except Exception as e:
+                    ctx.run.count("frame:edited frame raised " + type(e).__name__)
             if kw:
                 # the datetime-indexed frame against the model: loaded catalog + number of rows carrying row 0's label
                 dup = int((df.index == df.index[0]).sum()) if len(df) else 0
@@ -1577,7 +1729,7 @@ def gen_catalog(rng, n, pool, force=None):
     spec = dict(events=events, catalog_id=gen_catalog_id(rng), name=rng.choice(NAMES), region=region)
     if rng.random() < 0.4:
         spec["data_kind"] = rng.choice(["lists", "mixed", "ndarray", "ndarray-be", "tuples", "ndarray-strided",
-                                        "ndarray-reversed-view", "tuple-of-tuples", "numpy-scalars"])
+                                        "ndarray-reversed-view", "tuple-of-tuples", "numpy-scalars", "all-keywords", "subclass"])
     if "numpy-integer catalog_id through JSON" not in AWAITING_DECISION and spec["catalog_id"] is not None \
             and -2 ** 31 <= spec["catalog_id"] < 2 ** 31 and rng.random() < 0.15:
         spec["catalog_id_np"] = rng.choice(["int64", "int32", "uint64" if spec["catalog_id"] >= 0 else "int64"])
